@@ -132,6 +132,9 @@ pub fn bfs<M: SeqModel>(m: &M, depth: usize, max_states: usize, args: &Args, rep
         if hist.len() >= depth {
             continue;
         }
+        if rep.over_budget() {
+            break;
+        }
         if seen.len() >= max_states {
             rep.cap(format!("state cap {max_states} per shard reached at depth {}", hist.len()));
             break;
